@@ -74,6 +74,11 @@ func TestC18Reload(t *testing.T) {
 			writeUser(w.base, w.cfg, seedUser{Name: w.user, PW: w.pw, PID: w.cfg.Sets[0].ID})
 			writeUser(w.base, w.cfg, seedUser{Name: "carl", PW: "carl-0", PID: w.cfg.Sets[0].ID})
 		}
+		// in each directory one record written under a parameter set that only the *other* configuration defines: whatever the agent
+		// serves, and whatever it served before, this record is unsupported (a set retired by a reload is gone)
+		writeUser(wa.base, cfgB(), seedUser{Name: "olga", PW: "olga-pw", PID: 4})
+		writeUser(wb.base, cfgA(), seedUser{Name: "olga", PW: "olga-pw", PID: 1})
+		vlib.Class("reload:record-under-a-set-only-the-other-configuration-defines")
 		noAdmin := filepath.Join(root, "noadmin")
 		os.Mkdir(noAdmin, 0o700)
 		writeUser(noAdmin, cfgB(), seedUser{Name: "bert", PW: "x", PID: 2})
@@ -115,6 +120,9 @@ func TestC18Reload(t *testing.T) {
 			okRootO, e4 := a.saslAuth("root", "root-"+o.name, 0, 0)
 			if e1 != nil || e2 != nil || e3 != nil || e4 != nil {
 				t.Fatalf("VIOLATION C18: transport error %s: %v %v %v %v\n%s", when, e1, e2, e3, e4, tail(a.log(), 1500))
+			}
+			if okOlga, e5 := a.saslAuth("olga", "olga-pw", 0, 0); e5 != nil || okOlga {
+				t.Fatalf("VIOLATION C18: %s (configuration %s) a record under a parameter set that this configuration does not define authenticates (err=%v): sets of an earlier configuration are still in use\n%s", when, w.name, e5, tail(a.log(), 1500))
 			}
 			if !okW || okO || !okRootW || okRootO {
 				t.Fatalf("VIOLATION C18: %s the agent should serve configuration %s completely, but: %s@%s=%v %s@%s=%v root/%s=%v root/%s=%v\n%s",
